@@ -1,6 +1,6 @@
 from .cid import UbxCID
 from .frame import UbxFrame
-from .types import I2, I4, U1, X4, Padding
+from .types import I2, I4, U1, U4, X4, Padding
 
 
 class UbxCfgTp5_(UbxFrame):
@@ -29,9 +29,9 @@ class UbxCfgTp5(UbxCfgTp5_):
         self.f.add(Padding(2, 'res1'))
         self.f.add(I2('antCableDelay'))
         self.f.add(I2('rfGroupDelay'))
-        self.f.add(I4('freqPeriod'))
-        self.f.add(I4('freqPeriodLock'))
-        self.f.add(I4('pulseLenRatio'))
-        self.f.add(I4('pulseLenRatioLock'))
+        self.f.add(U4('freqPeriod'))
+        self.f.add(U4('freqPeriodLock'))
+        self.f.add(U4('pulseLenRatio'))
+        self.f.add(U4('pulseLenRatioLock'))
         self.f.add(I4('userConfigDelay'))
         self.f.add(X4('flags'))
